@@ -21,6 +21,7 @@ CONSTANTS
   Qs <- K_Q
   Vs <- K_V
   As <- K_A
+  QScales <- QS1
   Gravs <- K_G
   DisSets <- P_Dis
   TenK <- P_TK
@@ -30,6 +31,7 @@ CONSTANTS
   TenZero <- NoTz
   SpPairs <- D_Sp
   SpArms <- D_SpArm1
+  Sleeps <- NoTz
   StiffPolys <- P_KPs
   DampPolys <- P_DPs
   TenKPolys <- P_KPs
